@@ -88,8 +88,8 @@ def hist_of(cases):
 
 def streams(tier, rng):
     big = tier != "quick"
-    n_rand = 6000 if big else 450
-    n_rt = 1200 if big else 90
+    n_rand = 12000 if big else 1500
+    n_rt = 2500 if big else 250
     corpus = corpus_cases()
     chain = ignore_chain_cases()
     rand = []
@@ -139,3 +139,21 @@ def shrink(item, rerun):
                 item = dict(item, case=cand, impl=impl, model=model, spec_verdict=sb)
                 break
     return item
+
+MANIFEST = {
+    "text": "Coq theorems over all registries, filter predicates, ignore flags, run-time options and sorts (any permutation of siblings and "
+            "argument names): the action sequences of --list, the terse listing and Divan::list_benches contain no runner construction, no "
+            "Bencher and no invocation (C14_list_runs_nothing); for every well-formed forest, parent path and inherited options the terse "
+            "walk prints exactly path + ': benchmark' for the cases the test walk executes, same multiplicity and order "
+            "(C14_terse_eq_run), as multisets at the level of whole actions because only the run sorts (C14_terse_eq_run_action); "
+            "retain keeps exactly the executed cases whose path passes the filter (C14_retain_exec); with unique paths a listed path as "
+            "the only exact filter lists and executes exactly that case (C14_exact_roundtrip). The model (Registry/Tree/Driver) is tied "
+            "to the code by whole-program differential runs: synthetic registries pushed through divan::__private, the real CLI run as "
+            "child processes for the terse listing, --test, --list and list_benches, stdout and an invocation log compared.",
+    "note": "Trusted: Coq kernel, extraction, OCaml driver, harness/hx-run (synthetic entries built with the macros' public API; painted "
+            "tree parsed by indentation). Abstracted: the filter language (a predicate on the display path; the correspondence uses exact "
+            "and literal-regex filters), the sort comparator (any sibling permutation), thread counts (no `threads` option). clap and "
+            "regex-lite are exercised, not modelled. Corpus cases keep failing if F2 (a75ec0a) or F3 (8d95131) return.",
+    "technique": "machine-checked proof in Coq (structural induction over entry trees, trace monad with explicit panics) + whole-program "
+                 "differential correspondence against the real crate",
+}
